@@ -459,8 +459,9 @@ func runC17(r *Run, verifDir string) {
 		r.OK("C17.N7", "masks/no-order-compare", token.NoPos, "%d mask rendering/parsing function(s): no ordering comparison on a mask value", nFn)
 	}
 
+	c17N9(r)
 	// ---------------- N8 re-registration keeps both directions in step
-	r.Rule("C17.N8", "RegisterEnum creates its two per-tag maps under the same condition (both merged or both replaced on a second registration)", 1)
+	r.Rule("C17.N8", "RegisterEnum creates its two per-tag maps only when absent, both under the same condition (a second registration merges)", 1)
 	if re := p.Func("ttlv", "", "RegisterEnum"); re != nil && re.Blocks != nil {
 		type creation struct {
 			mapT    string
@@ -502,7 +503,9 @@ func runC17(r *Run, verifDir string) {
 					same = false
 				}
 			}
-			if same {
+			if same && !cs[0].guarded {
+				r.Bad("C17.N8", "ttlv.RegisterEnum/per-tag-maps", cs[0].pos, "RegisterEnum replaces the per-tag maps on every registration instead of creating them only when absent: a second registration for the same tag (a vendor extension value) wipes the pinned names, so the writers fall back to hexadecimal and the readers reject the standard names")
+			} else if same {
 				r.OK("C17.N8", "ttlv.RegisterEnum/per-tag-maps", re.Pos(), "%d per-tag maps, all created under the same condition (only when absent: %v)", len(cs), cs[0].guarded)
 			} else {
 				r.Bad("C17.N8", "ttlv.RegisterEnum/per-tag-maps", cs[0].pos, "RegisterEnum keeps one of its per-tag maps across registrations and recreates the other: after a second registration for the same tag (a vendor extension value) the value->name map still holds the standard names while the name->value map has lost them, so names the writers emit can no longer be read")
@@ -756,4 +759,93 @@ func c17CrossCheckVectors(r *Run, reg *Registry) {
 	})
 	r.Extra["oasis_vector_crosscheck"] = map[string]any{"files": files, "elements": elems, "named_enum_values": enums, "unresolved": unresolved, "unresolved_samples": unresolvedSamples}
 	r.Infof("C17 cross-reference (data only): %d OASIS XML files, %d elements, %d named enumeration values, %d unresolved against the static registry", files, elems, enums, unresolved)
+}
+
+// c17N9: whatever is rendered in hexadecimal by the name/number renderers is an unsigned quantity. A signed operand
+// prints a sign for the values with the top bit set ("0x-80000000"), a spelling no reader of the library accepts.
+// Decided on the syntax tree with types: every fmt.Sprintf/Appendf/Fprintf of packages ttlv and kmip with a constant
+// format; each %x/%X verb's operand must not have a signed integer type.
+func c17N9(r *Run) {
+	p := r.P
+	r.Rule("C17.N9", "hexadecimal renderings take unsigned operands (no sign can appear in a 0x... spelling)", 5)
+	for _, pkg := range p.RepoPkgs() {
+		rel := relPkg(pkg.PkgPath)
+		if rel != "ttlv" && rel != "" && rel != "." {
+			continue
+		}
+		ord := map[string]int{}
+		for _, f := range pkg.Syntax {
+			fname := p.Fset.Position(f.Pos()).Filename
+			if strings.HasSuffix(fname, "_test.go") {
+				continue
+			}
+			var encl string
+			ast.Inspect(f, func(n ast.Node) bool {
+				if fd, ok := n.(*ast.FuncDecl); ok {
+					encl = fd.Name.Name
+				}
+				ce, ok := n.(*ast.CallExpr)
+				if !ok {
+					return true
+				}
+				sel, ok := ce.Fun.(*ast.SelectorExpr)
+				if !ok {
+					return true
+				}
+				obj, ok := pkg.TypesInfo.Uses[sel.Sel].(*types.Func)
+				if !ok || obj.Pkg() == nil || obj.Pkg().Path() != "fmt" {
+					return true
+				}
+				fmtIdx := -1
+				switch obj.Name() {
+				case "Sprintf":
+					fmtIdx = 0
+				case "Appendf", "Fprintf":
+					fmtIdx = 1
+				}
+				if fmtIdx < 0 || len(ce.Args) <= fmtIdx || ce.Ellipsis.IsValid() {
+					return true
+				}
+				tv, ok := pkg.TypesInfo.Types[ce.Args[fmtIdx]]
+				if !ok || tv.Value == nil || tv.Value.Kind() != constant.String {
+					return true
+				}
+				format := constant.StringVal(tv.Value)
+				// walk the verbs
+				argi := fmtIdx + 1
+				for i := 0; i < len(format); i++ {
+					if format[i] != '%' {
+						continue
+					}
+					i++
+					for i < len(format) && strings.ContainsRune("+-# 0123456789.", rune(format[i])) {
+						i++
+					}
+					if i >= len(format) {
+						break
+					}
+					verb := format[i]
+					if verb == '%' {
+						continue
+					}
+					if format[i-1] == '*' || verb == '*' || verb == '[' {
+						return true // width from arguments / explicit indexes: not used by the library
+					}
+					if (verb == 'x' || verb == 'X') && argi < len(ce.Args) {
+						key := fmt.Sprintf("%s.%s/hex-operand", rel, encl)
+						ord[key]++
+						key = fmt.Sprintf("%s#%d", key, ord[key])
+						t := pkg.TypesInfo.TypeOf(ce.Args[argi])
+						if b, ok := t.Underlying().(*types.Basic); ok && b.Info()&types.IsInteger != 0 && b.Info()&types.IsUnsigned == 0 {
+							r.Bad("C17.N9", key, ce.Args[argi].Pos(), "%s renders a signed value (%s) in hexadecimal: a value with its top bit set is written with a minus sign (0x-80000000), which none of the readers accepts, so what is written by number is not read back", encl, t.String())
+						} else {
+							r.OK("C17.N9", key, ce.Args[argi].Pos(), "operand type %s", t.String())
+						}
+					}
+					argi++
+				}
+				return true
+			})
+		}
+	}
 }
